@@ -249,6 +249,19 @@ pub fn c03(a: &Args) -> i32 {
     rt.spawn(async move {
         let _ = AsyncServer::new(r2).serve(l2).await;
     });
+    // the same two TCP servers with their timeouts configured (separate code paths for reading and writing)
+    let l1t = std::net::TcpListener::bind("127.0.0.1:0").unwrap();
+    let tcp_t_addr = l1t.local_addr().unwrap();
+    let r1t = build_router(&log);
+    std::thread::spawn(move || {
+        let _ = Server::new(r1t).read_timeout(Some(Duration::from_secs(20))).write_timeout(Some(Duration::from_secs(20))).serve(l1t);
+    });
+    let r2t = build_router(&log);
+    let l2t = rt.block_on(AsyncServer::listen("127.0.0.1:0")).unwrap();
+    let async_t_addr = l2t.local_addr().unwrap();
+    rt.spawn(async move {
+        let _ = AsyncServer::new(r2t).read_timeout(Some(Duration::from_secs(20))).write_timeout(Some(Duration::from_secs(20))).serve(l2t).await;
+    });
     let r3 = build_router(&log);
     let l3 = rt.block_on(WebSocketServer::listen("127.0.0.1:0")).unwrap();
     let ws_addr = l3.local_addr().unwrap();
@@ -287,7 +300,7 @@ pub fn c03(a: &Args) -> i32 {
             }
         }
         let ids: Vec<u64> = (0..seq.len()).map(|_| { next_id += rng.gen_range(1..1000); next_id }).collect();
-        for (transport, blocking) in [("tcp", false), ("async", false), ("ws_inline", false), ("ws_offreader", true)] {
+        for (transport, blocking) in [("tcp", false), ("async", false), ("tcp_timeouts", false), ("async_timeouts", false), ("ws_inline", false), ("ws_offreader", true)] {
             let _ = log.drain_sorted();
             log.push(json!({"ev": "reset", "transport": transport, "seq": s, "n": seq.len()}));
             let mut frames = vec![];
@@ -301,6 +314,8 @@ pub fn c03(a: &Args) -> i32 {
             let idle = match transport {
                 "tcp" => run_tcp(tcp_addr, &frames, expect, &log),
                 "async" => run_tcp(async_addr, &frames, expect, &log),
+                "tcp_timeouts" => run_tcp(tcp_t_addr, &frames, expect, &log),
+                "async_timeouts" => run_tcp(async_t_addr, &frames, expect, &log),
                 _ => run_ws(ws_addr, &frames, expect, &log),
             };
             // notifies have no response to wait for: give their handlers a moment before closing the books
